@@ -42,6 +42,18 @@ CHECKS = {
     'C20': ("model_checking", "inspect(v), Debug and v_print(v) executed on the LLVM IR (-Zbuild-std: core::fmt, itertools sort, hashbrown for inspect's HashSet with concrete keys). Edge structure (six shapes incl. cycles, shared targets, "
             "an unreachable vertex) and data shapes are a task; labels and data bytes symbolic. Text tokenised under one model, every byte outside the payload proved fixed; inspect: terminates, multiset of printed edges = edges of the reachable "
             "vertices (symbolic label equalities); Debug: exactly the present vertices with edges and data; v_print: data marker iff data, exactly the labels.", "4 C20"),
+    'C11': ("model_checking", "merge() executed on the LLVM IR (-Zbuild-std: std's HashMap/HashSet with hashbrown on concrete ids, the recursive descent, the real put/bind/add/next_id/kid/kids). Two graphs live in one symbolic state. The structure of both "
+            "(present ids, edge targets: trees of up to 3 vertices with out-degree <= 2 on arbitrary ids, data placement and representation, group structure, the left graph's allocator position) is a task; ALL labels of both graphs and all data bytes are symbolic, "
+            "so the real code forks on every comparison of a right label with the labels of the left vertex it is mapped to: every overlap pattern of the two trees is a path. Per path: Ok; the right-to-left mapping followed along the labels in the post-state exists, "
+            "is injective, maps onto vertices carrying the same data; every old vertex, edge and undemanded datum is still there; every edge afterwards is old or demanded; exactly the demanded vertices were created under absent ids; Inv (counter == recount) holds again "
+            "(so later reads collect as C01/C02 say); the right graph is byte-identical.", "4 C11"),
+    'C12': ("model_checking", "Same machinery; the right graph is a tree plus a detached tree of one or two present vertices that `right` does not reach: every path of merge() must return Err (never Ok), and the error text (anyhow + format!, executed) must name exactly the missed vertices; "
+            "the right graph is byte-identical. Labels and data symbolic, structures per task.", "4 C12"),
+    'C14': ("model_checking", "Script::from_str(text).deploy_to(g) executed on the LLVM IR together with the regex crates (regex, regex-automata, regex-syntax, aho-corasick, memchr: the four patterns are compiled and matched by the real code inside the executor, "
+            "1.3 to 2.4 million IR instructions per run). A task fixes a program within the limits and ONE rendering (white space, comments, nu-prefixes, $variables, hex case/separators, optional last semicolon; seeded generator); the solver decides over the symbolic bytes inside it: "
+            "every label character (upper-case letters / all other printable ASCII but the structural characters; a symbolic two-byte character; symbolic decimal digits after alpha), every hex digit within its range, white-space characters over {space, tab, LF, CR}. "
+            "The same pre-state receives the corresponding add/bind/put/next_id calls with labels and data built from the same variables: abstract post-states equal for all values, count == number of commands. "
+            "Single fault: one ASCII byte of a concrete rendering ranges over every other ASCII value; no path may panic on a malformed witness or within the limits, malformed witnesses return Err on the whole path with the post-state of the commands before the fault.", "4 C14"),
     'C13': ("model_checking", "slice(v) and slice_some(v, p) executed on the LLVM IR (-Zbuild-std: std's HashSet/hashbrown with concrete keys, emap's iterator, the real empty/add/bind). The edge structure of the source (targets per vertex) "
             "is a task -- quick: ALL 343 structures of three vertices with up to two edges each plus 45 of four vertices; labels, data and the predicate are symbolic: the external symbol the closure forwards to answers with one solver variable per "
             "source edge, the real code branches on it. Every path: Ok; present vertices of the result == closure of v under accepted edges (a fixpoint formula over the predicate variables); every accepted edge between kept vertices is there; "
@@ -91,9 +103,6 @@ for pid, (cat, text, ref) in CHECKS.items():
     })
 
 NA = {
-    'C14': "script parsing is defined by four regex::Regex objects compiled at run time; the regex compiler/matcher cannot be encoded within reach (DESIGN.md section 6)",
-    'C11': "merge() is recursive over HashMap<usize,usize> with RandomState (SipHash of symbolic keys) and anyhow errors; not encodable within reach on either engine (DESIGN.md section 6)",
-    'C12': "same code as C11 (merge with HashMap and formatted anyhow errors); not encodable within reach (DESIGN.md section 6)",
 }
 na = []
 for p in props:
